@@ -15,6 +15,23 @@ theorem size_bound (st st' : ExpState) (time : Nat) (s : SetB) (hi : C16.Inv s) 
   have := C16.createMsg_length s.updateLen hi' _ _ _ w hc
   omega
 
+/-- the limit does not depend on what was sent before: a set whose message would exceed MaxSocketMsgSize is
+    refused by the exporting process in EVERY state - whatever it has sent, however large - and, under every
+    outcome the connection could give a Write, nothing reaches the connection -/
+theorem oversize_refused_in_every_state (st : ExpState) (time : Nat) (s : SetB)
+    (h : Generated.cMsgHeaderLength + s.updateLen.length > Generated.cMaxSocketMsgSize) :
+    (st.sendBuilt time s).2 = .err ∧ ∀ w, st.wroteW time s w = [] := by
+  have h1 : (st.sendBuilt time s).2 = .err := by
+    unfold ExpState.sendBuilt
+    split
+    · rfl
+    · split
+      · rfl
+      · simp only [createMsg, h, if_true]
+  refine ⟨h1, fun w => ?_⟩
+  unfold ExpState.wroteW
+  rw [h1]
+
 /-- a refused send transmits nothing (`SendResult.err` carries no bytes: the size and sanity checks
     precede the only `Write`) and leaves the exporter's template table and domain untouched, so
     every later send behaves as if the refused one had not happened - except for the counter,
